@@ -34,6 +34,18 @@ def uid(rng):
 def gen_bash(rng):
     r = rng.random()
     u = uid(rng)
+    if r < 0.08:
+        # output whose edges are white space: first line(s) empty, only empty lines, leading/trailing blanks
+        return rng.choice([
+            ('echo', '\r\n', 'edge'),
+            ("printf '\\n%%s\\n' %s" % u, '\r\n%s\r\n' % u, 'edge'),
+            ('echo; echo %s' % u, '\r\n%s\r\n' % u, 'edge'),
+            ("printf '\\n\\n'", '\r\n\r\n', 'edge'),
+            ("printf '%%s\\n\\n\\n' %s" % u, '%s\r\n\r\n\r\n' % u, 'edge'),
+            ("printf '  %%s  ' %s" % u, '  %s  ' % u, 'edge'),
+            ("printf '  %%s  \\n' %s" % u, '  %s  \r\n' % u, 'edge'),
+            ("printf ' '", ' ', 'edge'),
+        ])
     if r < 0.18:
         return ("printf '%%s\\n' %s" % u, u + '\r\n', 'plain')
     if r < 0.30:
@@ -74,6 +86,17 @@ def gen_bash(rng):
 def gen_py(rng):
     r = rng.random()
     u = uid(rng)
+    if r < 0.08:
+        return rng.choice([
+            ('print()', '\r\n', 'edge'),
+            ("print('\\n%s')" % u, '\r\n%s\r\n' % u, 'edge'),
+            ("print(); print('%s')" % u, '\r\n%s\r\n' % u, 'edge'),
+            ("print('\\n')", '\r\n\r\n', 'edge'),
+            ("print('%s\\n\\n')" % u, '%s\r\n\r\n\r\n' % u, 'edge'),
+            ("print('  %s  ')" % u, '  %s  \r\n' % u, 'edge'),
+            ("for i in range(2):\n    print()\n", '\r\n\r\n', 'edge'),
+            ("import sys; _ = sys.stdout.write('  %s  '); sys.stdout.flush()" % u, '  %s  ' % u, 'edge'),
+        ])
     if r < 0.2:
         return ("print('%s')" % u, u + '\r\n', 'plain')
     if r < 0.3:
